@@ -81,7 +81,8 @@ def run(chk):
                 ({"!(len(cookie['path']) > path_len)"}, "cookie path not longer than the request path"),
                 ({"!(is_not_secure)", "!(cookie['secure'])"}, "Secure cookies only over secure requests")]
         for w, why in need:
-            if clause_has(cl, w):
+            host_only = "host-only" in why and any(len(c) == 2 and {str(l) for l in c} & {"(domain == hostname)"} and any((not l.pos) and l.text.endswith(" in self._host_only_cookies") for l in c) for c in cl)
+            if clause_has(cl, w) or host_only:  # the key expression of the host-only table is decided by C16.identity
                 chk.ok("C16.filter", a, f"`{K.short(a, 40)}` is behind: {why}")
             else:
                 chk.violation("C16.filter", a, K.short(a), " | ".join(sorted(w)), f"a cookie can be attached without the filter: {why}", path_condition=norm.fmt_cnf(cl)[:500])
